@@ -127,3 +127,65 @@ Proof.
     apply fab_offset_lt. rewrite file_fabs_length. lia.
 Qed.
 End DiskOrder.
+
+(* ------------------------------------------------------------------ *)
+(** * the boxes of a file in its on-disk order, by file name *)
+Section IdsOf.
+Variable lv : level.
+Hypothesis Hwf : wf_level lv = true.
+Let n := length (lv_fabs lv).
+
+Definition ids_of (name : bytes) : list nat :=
+  match find (fun nf : bytes * list nat => bytes_eqb (fst nf) name) (lv_files lv) with
+  | Some nf => snd nf
+  | None => []
+  end.
+
+Lemma find_name : forall (files : list (bytes * list nat)) name ids,
+  NoDup (map fst files) -> In (name, ids) files ->
+  find (fun nf : bytes * list nat => bytes_eqb (fst nf) name) files = Some (name, ids).
+Proof.
+  induction files as [|[nm0 ids0] files IH]; intros name ids Hnd Hin; [destruct Hin|].
+  cbn [map fst] in Hnd. apply NoDup_cons_iff in Hnd. destruct Hnd as [Hn0 Hnd].
+  cbn [find fst]. destruct (bytes_eqb nm0 name) eqn:E.
+  - apply bytes_eqb_true in E. subst nm0. destruct Hin as [Hin|Hin]; [exact (f_equal Some Hin)|].
+    exfalso. apply Hn0. apply (in_map fst) in Hin. exact Hin.
+  - destruct Hin as [Hin|Hin]; [injection Hin as -> ->; rewrite bytes_eqb_refl in E; discriminate|].
+    apply IH; assumption.
+Qed.
+
+Lemma ids_of_in name ids : In (name, ids) (lv_files lv) -> ids_of name = ids.
+Proof.
+  intros Hin. unfold ids_of. destruct (wf_level_parts lv Hwf) as (Hd & _ & _).
+  rewrite (find_name _ name ids (distinct_names_NoDup _ Hd) Hin). reflexivity.
+Qed.
+
+Lemma ids_of_spec name i : In i (ids_of name) <-> (i < n)%nat /\ fst (loc_of lv i) = name.
+Proof.
+  unfold ids_of. destruct (find (fun nf : bytes * list nat => bytes_eqb (fst nf) name) (lv_files lv)) as [[nm ids]|] eqn:E.
+  - apply find_some in E. destruct E as [Hin E]. cbn [fst] in E. apply bytes_eqb_true in E. subst nm. cbn [snd].
+    pose proof (filter_file_perm lv Hwf name ids Hin) as HP. split.
+    + intros Hi. apply (Permutation_in _ (Permutation_sym HP)) in Hi. apply filter_In in Hi. destruct Hi as [Hi He].
+      apply in_seq in Hi. apply bytes_eqb_true in He. fold n in Hi. split; [lia | exact He].
+    + intros [Hi He]. apply (Permutation_in _ HP). apply filter_In. split; [apply in_seq; fold n; lia|].
+      rewrite He. apply bytes_eqb_refl.
+  - split; [intros []|]. intros [Hi He]. exfalso.
+    destruct (locate_total lv i Hwf Hi) as [cc Hloc]. unfold loc_of in He. rewrite Hloc in He.
+    destruct (locate_in lv i _ _ Hloc) as (ids & _ & Hin & _). rewrite He in Hin.
+    apply (find_none _ _ E) in Hin. cbn [fst] in Hin. rewrite bytes_eqb_refl in Hin. discriminate.
+Qed.
+
+Lemma ids_of_nodup name : NoDup (ids_of name).
+Proof.
+  unfold ids_of. destruct (find (fun nf : bytes * list nat => bytes_eqb (fst nf) name) (lv_files lv)) as [[nm ids]|] eqn:E; [|constructor].
+  apply find_some in E. destruct E as [Hin _]. cbn [snd]. exact (file_ids_NoDup lv Hwf nm ids Hin).
+Qed.
+
+Lemma locate_name_indep (l1 l2 : level) b : forall files,
+  option_map fst (locate l1 files b) = option_map fst (locate l2 files b).
+Proof.
+  induction files as [|[nm ids] files IH]; [reflexivity|]. cbn [locate].
+  destruct (pos_in b ids 0); [reflexivity | exact IH].
+Qed.
+
+End IdsOf.
